@@ -451,8 +451,11 @@ def scn_real(ctx):
         try:
             if name == "distributed":
                 # an in-process dask.distributed cluster (1 worker, nw threads) becomes the default scheduler
+                import logging
+
                 from dask.distributed import Client
 
+                logging.getLogger("distributed").setLevel(logging.CRITICAL)  # a poisoned event is logged by the worker otherwise
                 client = Client(processes=False, n_workers=1, threads_per_worker=nw, dashboard_address=None)
                 try:
                     with seams.simulated_clock(lambda: T0):
